@@ -571,7 +571,10 @@ def classify(res, spec, lines, judged, known, record_mismatch=True):
         if j[1] == 0:
             continue
         name = spec.get("patterns", {}).get(j[1])
-        if j[1] >= 2 and name in known:
+        # a listed finding excuses a case only when the model - which encodes the known mechanism -
+        # reproduces the implementation on it; the same symptom with a broken correspondence is not
+        # known to be that finding and is reported with the case as failing input
+        if j[1] >= 2 and name in known and j[0] == 0:
             if name not in res.known_seen:
                 res.known_seen[name] = "%s: %s [e.g. %s]" % (name, known[name]["what"], lines[i])
             continue
